@@ -208,6 +208,10 @@ class Compiler:
             targets = st.targets if isinstance(st, ast.Assign) else [st.target]
             if len(targets) != 1 or st.value is None:
                 raise Untranslatable('assignment ' + src(st)[:60])
+            if isinstance(st.value, ast.Call) and isinstance(targets[0], (ast.Name, ast.Tuple)):
+                ir = self.call_returning(targets[0], st.value, sc, in_loop)
+                if ir is not None:
+                    return ir
             return W(self.assign(targets[0], st.value, sc))
         if isinstance(st, ast.Expr) and isinstance(st.value, ast.Call):
             return self.call(st.value, sc, in_loop)
@@ -215,7 +219,9 @@ class Compiler:
 
     def classdef(self, st, sc):
         funcs = [b for b in st.body if isinstance(b, ast.FunctionDef)]
-        if not st.bases:
+        plain_bases = st.bases and all(self.to_E(b, sc) is None and not self.mentions_registry(b, sc)
+                                       and self.plain_module_class(b) for b in st.bases)
+        if not st.bases or plain_bases:
             for b in st.body:
                 if not (isinstance(b, ast.FunctionDef) or (isinstance(b, ast.Expr) and isinstance(b.value, ast.Constant))):
                     raise Untranslatable('class-level state in ' + st.name)
@@ -237,6 +243,60 @@ class Compiler:
             raise Untranslatable('class body of ' + st.name + ': ' + src(b)[:60])
         sc[st.name] = Local('obj', ('var', st.name))
         return [('newClass', st.name, parent, attrs)]
+
+    def plain_module_class(self, base):
+        """a base class named at module level of the same module whose body holds only methods and
+        docstrings (no class-level state), itself without heap-object bases"""
+        if not isinstance(base, ast.Name) or base.id not in self.classes:
+            return False
+        cd = self.classes[base.id]
+        if any(not (isinstance(b, ast.FunctionDef) or (isinstance(b, ast.Expr) and isinstance(b.value, ast.Constant))
+                    or isinstance(b, ast.Pass)) for b in cd.body):
+            return False
+        return all(self.plain_module_class(b) for b in cd.bases)
+
+    def call_returning(self, target, call, sc, in_loop):
+        """`x = helper(...)` / `a, b = helper(...)` for a function of the same module: the body is inlined,
+        the names get what the `return` expression denotes in the callee's scope; None if not applicable"""
+        f = call.func
+        if not (isinstance(f, ast.Name) and f.id in self.funcs) or call.keywords:
+            return None
+        fn = self.funcs[f.id]
+        rets = [n for n in ast.walk(fn) if isinstance(n, ast.Return)]
+        stack = getattr(self, '_inline_stack', [])
+        if f.id in stack or not rets:
+            return None
+        self._inline_stack = stack + [f.id]
+        try:
+            ir, nsc = self.inline(fn, None, call.args, sc, in_loop, (self.module, f.id), want_scope=True)
+        finally:
+            self._inline_stack = stack
+        names = [target] if isinstance(target, ast.Name) else list(target.elts)
+        heap_arg = any(isinstance(n, ast.Name) and sc.get(n.id) is not None and sc[n.id].kind in ('tbl', 'obj', 'listof')
+                       for a in call.args for n in ast.walk(a))
+        if not ir and not heap_arg and all(isinstance(n, ast.Name) for n in names) \
+                and not any(r.value is not None and self.mentions_registry(r.value, nsc) for r in rets):
+            # a pure helper (no heap object goes in, none is touched, none comes out): plain values
+            for n in names:
+                sc[n.id] = Local('atom')
+            return []
+        if len(rets) != 1 or fn.body[-1] is not rets[0] or rets[0].value is None:
+            raise Untranslatable('returns of ' + f.id)
+        rv = rets[0].value
+        vals = [rv] if isinstance(target, ast.Name) else (list(rv.elts) if isinstance(rv, ast.Tuple) else None)
+        if vals is None or len(vals) != len(names) or not all(isinstance(n, ast.Name) for n in names):
+            raise Untranslatable('return of ' + f.id)
+        for n, v in zip(names, vals):
+            e = self.to_E(v, nsc)
+            if e is not None:
+                sc[n.id] = Local('obj', e)
+            elif isinstance(v, ast.Name) and nsc.get(v.id) is not None:
+                sc[n.id] = nsc[v.id]
+            elif self.mentions_registry(v, nsc):
+                raise Untranslatable('return of ' + f.id + ': ' + src(v)[:40])
+            else:
+                sc[n.id] = Local('pylist') if self.is_fresh_list(v, nsc) else Local('atom')
+        return ir
 
     def assign(self, target, value, sc):
         if isinstance(target, ast.Name):
@@ -430,7 +490,7 @@ class Compiler:
                 raise Untranslatable('call passing a heap object: ' + src(c)[:80])
         return []
 
-    def inline(self, fn, recv, args, sc, in_loop, used):
+    def inline(self, fn, recv, args, sc, in_loop, used, want_scope=False):
         if used:
             self.used.add(used)
         params = [a.arg for a in fn.args.args]
@@ -458,7 +518,8 @@ class Compiler:
                     nsc[p] = Local('atom')
             else:
                 nsc[p] = Local('atom')
-        return self.block(fn.body, nsc, in_loop)
+        ir = self.block(fn.body, nsc, in_loop)
+        return (ir, nsc) if want_scope else ir
 
 
 _PYYAML = {}
@@ -619,8 +680,24 @@ def census(used, own_after_init=()):
                 if 'cache' in src(d):
                     hits.append('{}:{} {}: decorator {}'.format(fname, fn.lineno, qual, src(d)))
 
+        # a module-level function that is called from module level only (never from inside a function
+        # or method) runs at import: like the module-level statements it is part of the base
+        top_calls = {n.value.func.id for n in tree.body if isinstance(n, ast.Expr) and isinstance(n.value, ast.Call)
+                     and isinstance(n.value.func, ast.Name)}
+        inner_calls = set()
+        for n in tree.body:
+            if isinstance(n, (ast.FunctionDef, ast.ClassDef)):
+                for x in ast.walk(n):
+                    if isinstance(x, ast.Call) and isinstance(x.func, ast.Name):
+                        inner_calls.add(x.func.id)
+                    if isinstance(x, ast.Name) and isinstance(x.ctx, ast.Load) and x.id in top_calls \
+                            and not isinstance(getattr(x, '_parent_call', None), ast.Call):
+                        pass
+        import_time = top_calls - inner_calls
         for n in tree.body:
             if isinstance(n, ast.FunctionDef):
+                if n.name in import_time:
+                    continue
                 visit(n, n.name)
             if isinstance(n, ast.ClassDef):
                 for m in n.body:
